@@ -1,0 +1,33 @@
+//go:build verif
+// +build verif
+
+package netpoll
+
+// Verification hooks (build tag "verif"). They are nil unless a harness installs them.
+
+// VerifGateFn, when set, is called at the top of every poller iteration; a blocking
+// function turns the loop into a single-stepped one.
+var VerifGateFn func()
+
+// VerifSeenFn, when set, is told every epoll event of the current iteration, in order.
+var VerifSeenFn func(fd int, ev uint32)
+
+func verifGate() {
+	if f := VerifGateFn; f != nil {
+		f()
+	}
+}
+
+func verifSeen(fd int, ev uint32) {
+	if f := VerifSeenFn; f != nil {
+		f(fd, ev)
+	}
+}
+
+// VerifFds returns the epoll fd and the wake-up eventfd of the poller.
+func (p *Poller) VerifFds() (int, int) { return p.fd, p.efd }
+
+// VerifTasksEmpty reports whether both task queues are empty.
+func (p *Poller) VerifTasksEmpty() bool {
+	return p.asyncTaskQueue.IsEmpty() && p.urgentAsyncTaskQueue.IsEmpty()
+}
